@@ -123,13 +123,31 @@ class Net:
         self.order = []
         self.tag = threading.local()
         lock = threading.Lock()
-        orig_put = self.A.tx_queue.put
+        q = getattr(self.A, 'tx_queue', None)
+        if q is not None and hasattr(q, 'put'):
+            orig_put = q.put
 
-        def put(item, *a_, **k_):
-            with lock:
-                orig_put(item, *a_, **k_)
-                self.order.append(getattr(self.tag, 'v', None))
-        self.A.tx_queue.put = put
+            def put(item, *a_, **k_):
+                with lock:
+                    orig_put(item, *a_, **k_)
+                    self.order.append(getattr(self.tag, 'v', None))
+            q.put = put
+        else:
+            # no transmit queue attribute to observe: take the order in which send() calls return under a lock (non-blocking sends only
+            # are serialised by it; the per-thread and exactly-once oracles do not depend on this)
+            orig_send = self.A.send
+
+            def send(*a_, **k_):
+                if k_.get('send_timeout') is not None or getattr(self.A.params, 'blocking_send', False):
+                    r = orig_send(*a_, **k_)
+                    with lock:
+                        self.order.append(getattr(self.tag, 'v', None))
+                    return r
+                with lock:
+                    r = orig_send(*a_, **k_)
+                    self.order.append(getattr(self.tag, 'v', None))
+                    return r
+            self.A.send = send
 
     def close(self):
         for l in (self.A, self.B):
